@@ -78,6 +78,8 @@ def from_sparse(data, cols, channel_ids):
 
     """
     # The axis in the data that contains the channels.
+    # NOTE: -1 is appended to the requested channels below, so they must be signed.
+    channel_ids = np.asarray(channel_ids, dtype=np.int64)
     if len(channel_ids) != len(np.unique(channel_ids)):
         raise NotImplementedError("Multiple identical requested channels "
                                   "in from_sparse().")
